@@ -3,6 +3,8 @@
 package props
 
 import (
+	"strings"
+
 	"verif/sim/core"
 	"verif/sim/refts"
 
@@ -16,10 +18,20 @@ type DescSpec struct {
 	Tag     uint8  `json:"tag"`
 	Data    []byte `json:"data,omitempty"`
 	LenMode int    `json:"len_mode,omitempty"` // 0 = Length correct, 1 = Length left 0, 2 = Length wrong
+	Seed    uint64 `json:"seed,omitempty"`     // typed:<name>: content seed
+	N       int    `json:"n,omitempty"`        // typed:<name>: items of list-valued descriptors
 }
 
 // ToAstits builds the library descriptor.
 func (d DescSpec) ToAstits() *astits.Descriptor {
+	if strings.HasPrefix(d.Kind, "typed:") {
+		o := TypedDesc(d.Kind[6:], d.Seed, d.N)
+		// the redundant Length field: left 0 or set to an arbitrary non-zero value
+		if d.LenMode != 1 {
+			o.Length = uint8(1 + d.Seed%40)
+		}
+		return o
+	}
 	o := &astits.Descriptor{Tag: d.Tag, Length: uint8(len(d.Data))}
 	switch d.LenMode {
 	case 1:
